@@ -160,7 +160,7 @@ def _pyeq(a, b):
     return type(a) is type(b) and a == b
 
 
-OBJ_DEFAULTS = {'PObj': {'b': 'x'}, 'PSub': {}, 'PDef': {'c': 1, 'd': None}, 'PSet': {}, 'POpt': {}}
+OBJ_DEFAULTS = {'PObj': {'b': 'x'}, 'PSub': {}, 'PDef': {'c': 1, 'd': None}, 'PSet': {}, 'POpt': {}, 'PCb': {'hooks': None}, 'PHook': {'every': 1}}
 OBJ_IGNORED = {'PSub': ('b',)}
 
 
@@ -175,6 +175,8 @@ def canon_param(v):
         kw = {k: canon_param(x) for k, x in kw.items() if k not in ('verbose', 'debug') and k not in OBJ_IGNORED.get(cname, ())}
         if cname == 'PSet':
             kw = {k: (sorted(x, key=repr) if isinstance(x, list) else x) for k, x in kw.items()}
+        if cname == 'PCb':
+            kw['hooks'] = _strip_hooks(kw.get('hooks'))
         return {'$obj': [cname, kw]}
     if isinstance(v, list):
         return [canon_param(x) for x in v]
@@ -185,6 +187,17 @@ def canon_param(v):
     if isinstance(v, dict):
         return {'$d': {k: canon_param(x) for k, x in v.items()}}
     return V.canon_json(v)
+
+
+def _strip_hooks(c):
+    """canonical container without the helper objects that are ignored for persistence (at any depth)"""
+    def hook(x):
+        return isinstance(x, dict) and '$obj' in x and x['$obj'][0] == 'PHook'
+    if isinstance(c, list):
+        return [_strip_hooks(x) for x in c if not hook(x)]
+    if isinstance(c, dict) and '$d' in c:
+        return {'$d': {k: _strip_hooks(x) for k, x in c['$d'].items() if not hook(x)}}
+    return c
 
 
 def decode_value(v):
